@@ -440,43 +440,63 @@ def reach_foreign_channel(swap: bool, extra: bool, unused_own: bool) -> int:
     return foreign_channel_check(swap, extra, unused_own)
 
 
-def rejected_origin_check(ref_rej, ref_ok, explicit_rej, explicit_ok, n_between):
-    """The FIRST add_origin of a logical file is rejected (bad creation time); objects are added; a valid add_origin
-    follows: every object carries the reference of the valid origin, as if the rejected call had never been made."""
+REJ_ORIGIN_KW = [dict(creation_time='not a time'), dict(file_set_number=2.5), dict(file_set_number='7'),
+                 dict(file_set_number=[7]), dict(no_such_keyword=1), dict(order_number=[]), dict(run_number='x'),
+                 dict(well_id=3.5), dict(file_type=['A', 'B'])]
+N_REJ_ORIGIN = len(REJ_ORIGIN_KW)
+
+
+def rejected_origin_check(ref_rej, ref_ok, explicit_rej, explicit_ok, n_between, why=0, same_name=False):
+    """The FIRST add_origin of a logical file is rejected (for one of several reasons: creation time, file set number of
+    a wrong type, unknown keyword, ...); objects are added; a valid add_origin follows (optionally under the rejected
+    origin's name): every object carries the reference of the valid origin, the ORIGIN set holds the valid origin
+    only, copy number 0 - as if the rejected call had never been made."""
     df, (lf,) = new_file(1)
+    kw = dict(file_set_number=7)
+    kw.update(REJ_ORIGIN_KW[why])
     try:
-        lf.add_origin('BAD', file_set_number=7, origin_reference=ref_rej if explicit_rej else None, creation_time='not a time')
+        lf.add_origin('BAD', origin_reference=ref_rej if explicit_rej else None, **kw)
     except REJECT:
         pass
     else:
-        return 9
+        return 0                            # this variant is accepted by the library: nothing was rejected
     zs = []
     for k in range(n_between):
         zs.append(lf.add_zone('Z' + str(k)))
-    o = add_origin(lf, 'O', ref=ref_ok if explicit_ok else None)
+    o = add_origin(lf, 'BAD' if same_name else 'O', ref=ref_ok if explicit_ok else None)
     later = lf.add_zone('LATER')
     for z in zs + [later]:
         if z.origin_reference != o.origin_reference:
             return 1
     if lf.file_header_item.origin_reference != o.origin_reference:
         return 2
+    origins = list(lf.origins)
+    if len(origins) != 1 or origins[0] is not o:
+        return 3                            # the rejected origin is still part of the logical file
+    if o.copy_number != 0:
+        return 4
+    if explicit_ok and o.origin_reference != ref_ok:
+        return 5
+    if lf.defining_origin is not o:
+        return 6
     return 0
 
 
-def ob_rejected_origin(ref_rej: int, ref_ok: int, explicit_rej: bool, explicit_ok: bool, n_between: int) -> int:
+def ob_rejected_origin(ref_rej: int, ref_ok: int, explicit_rej: bool, explicit_ok: bool, n_between: int, why: int, same_name: bool) -> int:
     """
-    pre: 1 <= ref_rej < 1073741824 and 1 <= ref_ok < 1073741824 and 0 <= n_between <= 2
+    pre: 1 <= ref_rej < 1073741824 and 1 <= ref_ok < 1073741824 and 0 <= n_between <= 2 and 0 <= why < N_REJ_ORIGIN
+    pre: why % SHARD_N == SHARD_I % 9
     post: _ == 0
     """
-    return rejected_origin_check(ref_rej, ref_ok, explicit_rej, explicit_ok, n_between)
+    return rejected_origin_check(ref_rej, ref_ok, explicit_rej, explicit_ok, n_between, why, same_name)
 
 
-def reach_rejected_origin(ref_rej: int, ref_ok: int, explicit_rej: bool, explicit_ok: bool, n_between: int) -> int:
+def reach_rejected_origin(ref_rej: int, ref_ok: int, explicit_rej: bool, explicit_ok: bool, n_between: int, why: int, same_name: bool) -> int:
     """
-    pre: 1 <= ref_rej < 1073741824 and 1 <= ref_ok < 1073741824 and 0 <= n_between <= 2
+    pre: 1 <= ref_rej < 1073741824 and 1 <= ref_ok < 1073741824 and 0 <= n_between <= 2 and 0 <= why < N_REJ_ORIGIN
     post: _ != 0
     """
-    return rejected_origin_check(ref_rej, ref_ok, explicit_rej, explicit_ok, n_between)
+    return rejected_origin_check(ref_rej, ref_ok, explicit_rej, explicit_ok, n_between, why, same_name)
 
 
 # ------------------------------------------------- soft enumerations: the verdict depends on the mode NOW (C14 / C17)
